@@ -56,6 +56,7 @@ const std::string Parser::DiagnosticsReporter::ID_of_UnexpectedInitializerOfDecl
 const std::string Parser::DiagnosticsReporter::ID_of_UnexpectedStaticOrTypeQualifierInArrayDeclarator = "Parser-304-6.7.6";
 const std::string Parser::DiagnosticsReporter::ID_of_UnexpectedPointerInArrayDeclarator = "Parser-305-6.7.6";
 const std::string Parser::DiagnosticsReporter::ID_of_ExpectedNamedParameterBeforeEllipsis = "Parser-306-6.7.6.3";
+const std::string Parser::DiagnosticsReporter::ID_of_UnexpectedAssignmentToNonUnaryExpression = "Parser-307-6.5.16";
 const std::string Parser::DiagnosticsReporter::ID_of_UnexpectedCaseLabelOutsideSwitch = "Parser-308-6.8.1-2";
 const std::string Parser::DiagnosticsReporter::ID_of_UnexpectedDefaultLabelOutsideSwitch = "Parser-309-6.8.1-2";
 const std::string Parser::DiagnosticsReporter::ID_of_UnexpectedContinueOutsideLoop = "Parser-310-6.8.6.2-1";
@@ -436,6 +437,16 @@ void Parser::DiagnosticsReporter::ExpectedNamedParameterBeforeEllipsis()
                 DiagnosticDescriptor(ID_of_ExpectedNamedParameterBeforeEllipsis,
                                      "[[unexpected ellipsis before named parameter]]",
                                      "ISO C requires a named parameter before `...'",
+                                     DiagnosticSeverity::Error,
+                                     DiagnosticCategory::Syntax));
+}
+
+void Parser::DiagnosticsReporter::UnexpectedAssignmentToNonUnaryExpression()
+{
+    diagnoseOrDelayDiagnostic(
+                DiagnosticDescriptor(ID_of_UnexpectedAssignmentToNonUnaryExpression,
+                                     "[[unexpected assignment to non-unary expression]]",
+                                     "the left operand of an assignment must be a unary expression",
                                      DiagnosticSeverity::Error,
                                      DiagnosticCategory::Syntax));
 }
